@@ -1,0 +1,23 @@
+//go:build verif
+
+// Contracts for package expr (comment-only; read by /verif/bin/zv, never compiled into the product).
+package expr
+
+// Interface contract of Expr (what callers may assume; every implementation is checked against it).
+// Expression objects are immutable after construction, so EncodedWidth is a pure function of the expression value.
+//@ interface Expr.EncodedWidth
+//@   params this
+//@   pure
+//@   ensures nonneg: result >= 0
+
+//@ interface Expr.IsConstant
+//@   params this
+//@   pure
+
+// Merge(b, x, y): writes only the first EncodedWidth bytes of b; returns the three remainders.
+//@ interface Expr.Merge
+//@   params this, b, x, y
+//@   requires room: len(b) >= this.EncodedWidth() && len(x) >= this.EncodedWidth() && len(y) >= this.EncodedWidth()
+//@   modifies b[0:this.EncodedWidth()]
+//@   ensures remain: result0 == b[this.EncodedWidth():] && result1 == x[this.EncodedWidth():] && result2 == y[this.EncodedWidth():]
+//@   ensures state: forall j in 0..this.EncodedWidth() :: b[j] == mergedByte(this, old(arr(x)), off(x), old(arr(y)), off(y), j)
